@@ -2,7 +2,7 @@
     of the library as a function from a list of byte strings to a result
     class and a list of byte strings (the projected observables).  The Go
     harness implements the same table on top of the real code. *)
-From DV Require Import Base.Bytes Label.Model V4.Model V4.Accessors V6.Model V6.Dump.
+From DV Require Import Base.Bytes Label.Model V4.Model V4.Accessors V4.Builders V6.Model V6.Dump.
 
 
 (** entry 1: rfc1035label.FromBytes(b) -> Labels *)
@@ -140,6 +140,41 @@ Definition e_v4_accessor (args : list bytes) : res (list bytes) :=
   | _ => Err
   end.
 
+(** * DHCPv4 builders (entry 40): args = builder id, n, n packet args (source packet), then modifier triples *)
+Fixpoint mods_of_args (src : pkt4) (a : list bytes) : list modifier :=
+  match a with
+  | k :: x :: y :: r =>
+    let m := match n_of_be k with
+      | 1 => MXid x | 2 => MClientIP (ip_of_arg x) | 3 => MYourIP (ip_of_arg x) | 4 => MServerIP (ip_of_arg x)
+      | 5 => MGatewayIP (ip_of_arg x) | 6 => MOptCopied src (nth 0 x x00) | 7 => MReply src
+      | 8 => MHWType (n_of_be x) | 9 => MBroadcast (match x with [x01] => true | _ => false end)
+      | 10 => MHwAddr x | 11 => MGeneric (nth 0 x x00) y | 12 => MWithout (nth 0 x x00)
+      | 13 => MMsgType (n_of_be x) | 14 => MRequested x | 15 => MRelay (ip_of_arg x)
+      | 16 => MNetmask x | _ => MLeaseTime (n_of_be x)
+      end%N in
+    m :: mods_of_args src r
+  | _ => []
+  end.
+
+Definition e_v4_build (args : list bytes) : res (list bytes) :=
+  match args with
+  | bid :: cnt :: rest =>
+    let n := N.to_nat (n_of_be cnt) in
+    match pkt_of_args (firstn n rest) with
+    | Some src =>
+      let user := mods_of_args src (skipn n rest) in
+      let defaults := match n_of_be bid with
+        | 1 => defaults_reply_from_request src | 2 => defaults_request_from_offer src
+        | 3 => defaults_renew_from_ack src | 4 => defaults_release_from_ack src
+        | 5 => defaults_inform (p_chaddr src) (p_ciaddr src) | 6 => defaults_discovery (p_chaddr src)
+        | _ => []
+        end%N in
+      Ok (obs_pkt4 (new_with (zeros 4) defaults user))
+    | None => Err
+    end
+  | _ => Err
+  end.
+
 Definition run (entry : N) (args : list bytes) : res (list bytes) :=
   match entry with
   | 1 => e_label_from args
@@ -153,6 +188,7 @@ Definition run (entry : N) (args : list bytes) : res (list bytes) :=
   | 14 => e_v4_encdec args
   | 20 => e_v6_dec args
   | 30 => e_v4_accessor args
+  | 40 => e_v4_build args
   | 21 => e_v6_reenc args
   | 22 => e_v6_opt args
   | 23 => e_v6_message args
